@@ -488,6 +488,15 @@ pub fn dedicated_inputs() -> Vec<(&'static str, Mods, usize)> {
         let name: &'static str = ["shadowed-predefined-names/0", "shadowed-predefined-names/1", "shadowed-predefined-names/2", "shadowed-predefined-names/3", "shadowed-predefined-names/4", "shadowed-predefined-names/5"][k % 6];
         out.push((name, mods, ptrw));
     }
+    // a diamond: the AsRef conflict notes are numbered per file, whatever was built before
+    out.push((
+        "diamond-with-conflict-notes",
+        vec![(
+            ItemPath::from("kd_dia"),
+            pyxis::parser::parse_str("pub type A { pub x: u64, }\npub type B { #[base] pub a: A, }\npub type C { #[base] pub a: A, }\npub type D { #[base] pub b: B, #[base] pub c: C, }\npub type Da { #[base] pub b: B, #[base] pub c: C, }").expect("parses"),
+        )],
+        8,
+    ));
     // a user type that is WORD FOR WORD what pyxis generates for an empty vftable block
     out.push((
         "user-type-identical-to-generated-vftable",
@@ -629,6 +638,28 @@ pub fn explore(mods: &Mods, ptrw: usize, seed: u64, perm_limit: usize, repeats: 
         }
         let msg = out.result.as_ref().err().map(|e| e.msg.clone()).unwrap_or_default();
         compare(&mut res, "repeated-in-process", "hash order".into(), &outcome_of(&out.result), &msg);
+    }
+    // 3b. the same build right after a build of the same items that fails while it is being
+    // WRITTEN (an enum value that does not fit its base type is only found by the backend):
+    // nothing of the failed build may be left behind on the thread
+    if let Outcome::Ok(_) = &reference {
+        let mut poisoned = mods.clone();
+        if let Some((_, last)) = poisoned.last_mut() {
+            last.definitions.push(ItemDefinition::new(
+                (Visibility::Public, "ZzzDoesNotFit"),
+                EnumDefinition::new(Type::ident("u8"), [EnumStatement::field_with_expr("V", Expr::IntLiteral(300))], []),
+            ));
+        }
+        for _ in 0..3 {
+            let failed = drive::build_modules(&poisoned, ptrw, Opts::default());
+            *res.runs.entry("poison-builds").or_insert(0) += 1;
+            if failed.result.is_ok() {
+                break;
+            }
+            let out = drive::build_modules(mods, ptrw, Opts::default());
+            let msg = out.result.as_ref().err().map(|e| e.msg.clone()).unwrap_or_default();
+            compare(&mut res, "after-a-failed-build", "same thread".into(), &outcome_of(&out.result), &msg);
+        }
     }
     // 4. fresh processes on a real directory
     if children > 0 {
